@@ -14,6 +14,7 @@ import (
 	"errors"
 	"fmt"
 	"io"
+	"io/fs"
 	"math/rand"
 	"os"
 	"os/exec"
@@ -109,6 +110,14 @@ func worker() {
 	wid, _ := strconv.Atoi(os.Getenv("C07_WID"))
 	noBlindWrites := os.Getenv("C07_CHAIN") == "1"
 	allowEmpty = os.Getenv("C07_EMPTY") == "1"
+	writeEmpty := allowEmpty
+	absent := os.Getenv("C07_ABSENT") == "1"
+	if absent {
+		// the files of this round do not exist when the clients are released. "No file" and "empty file" are
+		// one value (EMPTY, nothing published yet): creating the file and taking its lock are two steps,
+		// so a Read that overlaps the first Write may legitimately find the file empty
+		allowEmpty = true
+	}
 	words, err := vlib.OpenSharedWords(filepath.Join(dir, "words"), 8)
 	if err != nil {
 		fmt.Fprintln(os.Stderr, err)
@@ -153,7 +162,7 @@ func worker() {
 				mk := func() (string, []byte) {
 					s := int64(wid)*10_000_000 + atomic.AddInt64(&serial, 1)
 					tag := fmt.Sprintf("w%d", wid)
-					if allowEmpty && rng.Intn(4) == 0 {
+					if writeEmpty && rng.Intn(4) == 0 {
 						return "EMPTY", nil
 					}
 					return fmt.Sprintf("%s/%d", tag, s), payload.Make(tag, s, payloadSizes[rng.Intn(len(payloadSizes))])
@@ -178,7 +187,9 @@ func worker() {
 						b, err = lockedfile.Read(path)
 					}
 					ev.Ret = vlib.MonoNow()
-					if err != nil {
+					if err != nil && absent && errors.Is(err, fs.ErrNotExist) {
+						ev.Val = "EMPTY"
+					} else if err != nil {
 						ev.Err = err.Error()
 					} else if id, prob := ident(b); prob != "" {
 						ev.Corrupt = prob
@@ -521,7 +532,7 @@ func main() {
 		return
 	}
 	vlib.Main("C07", "exploration", 12*time.Minute, func(r *vlib.Run) {
-		r.Rule("schedules: rounds of P processes (2-6) x G goroutines (2-6) released together on F files (every second process with its standard input closed, so that files land on descriptor 0); each client does K operations (Read via lockedfile.Read or Open+delayed ReadAll, Write of a unique payload, Transform to a unique payload, Transform whose function fails) with unique self-describing payloads of 24B..256KiB and seeded delays at the lockedfile hooks; each file's history (plus a final quiescent Read) is checked with porcupine against a register model; every fifth round has no blind Writes and is also checked by the chain checker; every fifth round writes empty contents too and starts half of its files empty (EMPTY is then an ordinary value of the register). faults: for 9 (quick) / 15 old/new length relations a dry run under strace lists the file operations of one Transform, then one run per (operation, errno), plus failing function and RLIMIT_FSIZE short writes. Non-trivial/distinct = per-file histories containing overlapping operations of different kinds + confirmed fault injections.")
+		r.Rule("schedules: rounds of P processes (2-6) x G goroutines (2-6) released together on F files (every second process with its standard input closed, so that files land on descriptor 0); each client does K operations (Read via lockedfile.Read or Open+delayed ReadAll, Write of a unique payload, Transform to a unique payload, Transform whose function fails) with unique self-describing payloads of 24B..256KiB and seeded delays at the lockedfile hooks; each file's history (plus a final quiescent Read) is checked with porcupine against a register model; every fifth round has no blind Writes and is also checked by the chain checker; every fifth round writes empty contents too and starts half of its files empty (EMPTY is then an ordinary value of the register); every fifth round starts with no files at all (12-31 names, first operations race to create them; a missing and an empty file are the one value EMPTY). faults: for 9 (quick) / 15 old/new length relations a dry run under strace lists the file operations of one Transform, then one run per (operation, errno), plus failing function and RLIMIT_FSIZE short writes. Non-trivial/distinct = per-file histories containing overlapping operations of different kinds + confirmed fault injections.")
 		r.Assume("CLOCK_MONOTONIC is one clock for all processes of the machine; porcupine v1.3.0 decides linearizability of the recorded history (timeout => inconclusive)")
 		base := vlib.Scratch()
 		W := runtime.NumCPU()
@@ -561,9 +572,17 @@ func main() {
 			// every fifth round (not a chain round) also writes empty contents and starts half of
 			// its files empty: a failing Transform must leave an empty file in place like any other
 			emptyRound := round%5 == 2
-			allowEmpty = emptyRound
+			// every fifth round starts with no files at all: the first operations race to create them, and
+			// whatever the winner published must be what the others find
+			absentRound := round%5 == 1
+			allowEmpty = emptyRound || absentRound
+			if absentRound {
+				F = 12 + rng.Intn(20)
+				K = 3 + rng.Intn(4)
+				r.Count("rounds_starting_without_files", 1)
+			}
 			init := payload.Make("init", 0, 1000)
-			for f := 0; f < F; f++ {
+			for f := 0; f < F && !absentRound; f++ {
 				if emptyRound && f%2 == 0 {
 					os.WriteFile(filepath.Join(dir, fmt.Sprintf("f%d", f)), nil, 0o666)
 					continue
@@ -590,6 +609,9 @@ func main() {
 					vlib.RaceEnv(racePrefix))
 				if emptyRound {
 					cmd.Env = append(cmd.Env, "C07_EMPTY=1")
+				}
+				if absentRound {
+					cmd.Env = append(cmd.Env, "C07_ABSENT=1")
 				}
 				if chain {
 					cmd.Env = append(cmd.Env, "C07_CHAIN=1")
@@ -628,10 +650,12 @@ func main() {
 			for f := 0; f < F; f++ {
 				evs := byFile[f]
 				// final quiescent read by the parent
-				b, _ := os.ReadFile(filepath.Join(dir, fmt.Sprintf("f%d", f)))
+				b, ferr := os.ReadFile(filepath.Join(dir, fmt.Sprintf("f%d", f)))
 				fin := event{Client: 9999, File: f, Op: opRead, Call: vlib.MonoNow()}
 				fin.Ret = fin.Call + 1
-				if id, prob := ident(b); prob != "" {
+				if absentRound && errors.Is(ferr, fs.ErrNotExist) {
+					fin.Val = "EMPTY"
+				} else if id, prob := ident(b); prob != "" {
 					fin.Corrupt = "final contents: " + prob
 				} else {
 					fin.Val = id
@@ -639,6 +663,9 @@ func main() {
 				evs = append(evs, fin)
 				if emptyRound && f%2 == 0 {
 					// the file started empty: a completed Write of EMPTY before everything else
+					evs = append(evs, event{Client: 9998, File: f, Op: opWrite, Arg: "EMPTY", Call: 0, Ret: 1})
+				}
+				if absentRound {
 					evs = append(evs, event{Client: 9998, File: f, Op: opWrite, Arg: "EMPTY", Call: 0, Ret: 1})
 				}
 				sort.Slice(evs, func(i, j int) bool { return evs[i].Call < evs[j].Call })
